@@ -6,7 +6,7 @@ import spec
 from spec import hex_of
 
 OBLIGATION_MODULES = ["PyModeS.Properties.C14"]
-TIE_MODULES = ['PyModeS.Tie.Basic', 'PyModeS.Tie.Bds61', 'PyModeS.Tie.Bds62', 'PyModeS.Tie.Bds08', 'PyModeS.Tie.Callsign', 'PyModeS.Tie.Surv', 'PyModeS.Tie.Adsb', 'PyModeS.Tie.C13Gen']
+TIE_MODULES = ['PyModeS.Tie.Basic', 'PyModeS.Tie.Bds61', 'PyModeS.Tie.Bds62', 'PyModeS.Tie.Bds08', 'PyModeS.Tie.Callsign', 'PyModeS.Tie.Icao', 'PyModeS.Tie.Surv', 'PyModeS.Tie.Adsb', 'PyModeS.Tie.C13Gen']
 MAIN_THEOREM = "PyModeS.C14.*_guard / *_no_crash"
 RULE = ("every exported decoder x DF 0..31 x TC 0..31 x subtype x {zero, ones, random, random} payload x {28, 14} hex digits; "
         "outcome class (value / RuntimeError / other exception) compared with the model and with the documented (DF, TC, subtype) "
@@ -246,6 +246,30 @@ def cases(ctx):
             op, path, args, doc, long_only = F[name]
             yield dict(op=(op + " " + m) if op else None, real=("h:props.C14.klass", [path, args, m]), pred=["pred_class", True, 56, long_only, path],
                        tag="boundary-ic", info=dict(df=11, tc=0, st2=None, n=56, long_only=long_only, fn=path))
+    # Comm-B registers with every subset of their status bits cleared (value zero where the status is off), under DF20 and
+    # DF21: the pretty-printer and the inference receive `None` from each getter in turn
+    LAYOUT = {
+        "A000029C85E42F313000007047D3": [(1, 2, 13), (14, 15, 26), (27, 28, 39), (48, 49, 51), (54, 55, 56)],          # BDS 4,0
+        "A000139381951536E024D4CCF6B5": [(1, 2, 11), (12, 13, 23), (24, 25, 34), (35, 36, 45), (46, 47, 56)],          # BDS 5,0
+        "A00004128F39F91A7E27C46ADC21": [(1, 2, 12), (13, 14, 23), (24, 25, 34), (35, 36, 45), (46, 47, 56)],          # BDS 6,0
+        "A0001692185BD5CF400000DFC696": [(5, 6, 23), (35, 36, 46), (47, 48, 49), (50, 51, 56)],                        # BDS 4,4
+    }
+    for base, groups in LAYOUT.items():
+        bits0 = spec.bits_of(int(base, 16), 112)
+        for mask in range(1 << len(groups)):
+            for df in (20, 21):
+                f = list(bits0)
+                spec.put(f, 0, 5, df)
+                for gi, (sb, msb, lsb) in enumerate(groups):
+                    if not (mask >> gi) & 1:
+                        for k in range(sb, lsb + 1):
+                            f[32 + k - 1] = 0
+                m = hex_of(f, rng.choice(["upper", "lower"]))
+                for name in ("h:props.C14.tell_quiet", "pyModeS.bds.infer"):
+                    op, path, args, doc, long_only = F[name]
+                    yield dict(op=((op % m) if "%s" in op else op + " " + m) if op else None, real=("h:props.C14.klass", [path, args, m]),
+                               pred=["pred_class", True, 112, long_only, path], tag="status-subsets",
+                               info=dict(df=df, tc=0, st2=None, n=112, long_only=long_only, fn=path))
     styles = ["zero", "one", "rand", "rand"] if not ctx.thorough else ["zero", "one"] + ["rand"] * 6
     for df in range(32):
         tcs = range(32) if df in (17, 18) else [rng.randrange(32), rng.randrange(32)]
